@@ -167,6 +167,10 @@ def roundtrip(rmod, rule, text, path, hook=None):
         route = router.add(text, 'GET', h)
         if hook and hook[1] == 'after':
             router.add_hook(hook[0], lambda *a, **kw: None)
+        if hook and hook[1] == 'overwrite':
+            # the same pattern registered again for another verb, written with other wildcard names, with overwrite=True:
+            # the route that matched GET still builds and matches with the names of ITS rule
+            router.add(hook[0], 'PUT', lambda **kw: kw, overwrite=True)
     except Exception as e:   # noqa
         return 'rule-rejected', f'rule text {text!r} rejected: {type(e).__name__}: {e}'
     try:
@@ -310,7 +314,7 @@ def check_hooked(res, rmod, rule):
             continue
         if htext is None or (how == 'anon' and htext == rr.default_text(renamed(rule, 'other'))):
             continue
-        for when in ('after', 'before'):
+        for when in ('after', 'before', 'overwrite'):
             res['states'] += 1
             for p in [q for q in paths_for(rule) if rr.match(rule, q.strip('/')) is not None][:60]:
                 r = roundtrip(rmod, rule, text, p, hook=(htext, when))
